@@ -1407,6 +1407,11 @@ func (k *checker) replay() {
 	key, what := "", ""
 	var rc any
 	switch part.Case.Part {
+	case "bigts":
+		// the part is a handful of cases: it is run again as a whole
+		c.Shard = 0
+		k.partBigTimestamps()
+		return
 	case "arrival":
 		var f struct{ Case arrivalCase }
 		_ = vk.ReadJSON(c.Replay, &f)
